@@ -419,6 +419,61 @@ Proof.
   repeat split; try assumption; try lia.
 Qed.
 
+(* Go would panic on an index out of range where [nth] answers 0: on every string time.Parse
+   accepts, every index the three checks evaluate (in Go's evaluation order) is in range. *)
+Lemma strict_checks_in_range s :
+  rfc3339_gen false s = true -> switch_safe s expected_strict_checks = true.
+Proof.
+  unfold rfc3339_gen.
+  destruct (num4 s) as [[year r1]|] eqn:E1; [|discriminate].
+  apply num4_inv in E1 as (y1 & y2 & y3 & y4 & -> & Y1 & Y2 & Y3 & Y4 & ->).
+  destruct (lit 45 r1) as [r2|] eqn:E2; [|discriminate]. apply lit_inv in E2 as ->.
+  destruct (num2 r2) as [[month r3]|] eqn:E3; [|discriminate].
+  apply num2_inv in E3 as (o1 & o2 & -> & O1 & O2 & ->).
+  destruct (lit 45 r3) as [r4|] eqn:E4; [|discriminate]. apply lit_inv in E4 as ->.
+  destruct (num2 r4) as [[day r5]|] eqn:E5; [|discriminate].
+  apply num2_inv in E5 as (d1 & d2 & -> & D1 & D2 & ->).
+  destruct (lit 84 r5) as [r6|] eqn:E6; [|discriminate]. apply lit_inv in E6 as ->.
+  destruct (num12 r6) as [[hour r7]|] eqn:E7; [|discriminate].
+  apply num12_inv in E7 as [(h1 & h2 & -> & H1 & H2 & ->) | (h & -> & H1 & -> & _)].
+  2:{ destruct (lit 58 r7) as [r8|] eqn:E8; [|discriminate]. apply lit_inv in E8 as ->.
+      intros _. reflexivity. }
+  destruct (lit 58 r7) as [r8|] eqn:E8; [|discriminate]. apply lit_inv in E8 as ->.
+  destruct (num2 r8) as [[minute r9]|] eqn:E9; [|discriminate].
+  apply num2_inv in E9 as (m1 & m2 & -> & M1 & M2 & ->).
+  destruct (lit 58 r9) as [r10|] eqn:E10; [|discriminate]. apply lit_inv in E10 as ->.
+  destruct (num2 r10) as [[sec r11]|] eqn:E11; [|discriminate].
+  apply num2_inv in E11 as (s1 & s2 & -> & S1 & S2 & ->).
+  intros T. repeat (apply andb_true_iff in T as [T ?]).
+  match goal with Ht : tz_ok false _ = true |- _ => apply tail_inv_l in Ht as (frac & zone & -> & Zo & Fr) end.
+  set (P := [y1; y2; y3; y4; 45; o1; o2; 45; d1; d2; 84; h1; h2; 58; m1; m2; 58; s1; s2]).
+  change (switch_safe (P ++ frac ++ zone) expected_strict_checks = true).
+  assert (LZ : (1 <= length zone)%nat /\ (zone = [90] \/ length zone = 6%nat)).
+  { destruct Zo as [-> | (sg & a1 & a2 & c1 & c2 & -> & _)]; simpl; split; auto; lia. }
+  destruct LZ as [LZ1 LZ2].
+  unfold expected_strict_checks. cbn [switch_safe scond_safe body_safe next_idx Nat.sub].
+  assert (I12 : idx_ok (P ++ frac ++ zone) (FromStart 12) = true) by reflexivity.
+  assert (I19 : idx_ok (P ++ frac ++ zone) (FromStart 19) = true).
+  { unfold idx_ok. apply Nat.ltb_lt. rewrite !app_length. simpl. lia. }
+  assert (IE : forall k, (1 <= k)%nat -> (k <= length zone)%nat -> idx_ok (P ++ frac ++ zone) (FromEnd k) = true).
+  { intros k K1 K2. unfold idx_ok. apply andb_true_iff. split; apply Nat.leb_le; auto.
+    rewrite !app_length. lia. }
+  rewrite I12, I19. cbn [andb].
+  assert (E1 : scond_eval (P ++ frac ++ zone) (CByte (FromStart 12) OpEq 58) = false).
+  { simpl. apply N.eqb_neq. apply dig_range in H2. lia. }
+  rewrite E1.
+  destruct (scond_eval (P ++ frac ++ zone) (CByte (FromStart 19) OpEq 44)); [reflexivity|].
+  rewrite (IE 1%nat) by lia. cbn [andb].
+  destruct LZ2 as [-> | L6].
+  - assert (E3 : scond_eval (P ++ frac ++ [90]) (CByte (FromEnd 1) OpNe 90) = false).
+    { rewrite app_assoc. cbn [scond_eval byte_at cmp_eval]. rewrite nth_from_end by (simpl; lia). reflexivity. }
+    now rewrite E3.
+  - destruct (scond_eval (P ++ frac ++ zone) (CByte (FromEnd 1) OpNe 90)); [|reflexivity].
+    rewrite (IE 5%nat), (IE 4%nat), (IE 2%nat) by lia. cbn [andb].
+    destruct (scond_eval (P ++ frac ++ zone) (CNum2 (FromEnd 5) OpGe 24)); [reflexivity|].
+    destruct (scond_eval (P ++ frac ++ zone) (CNum2 (FromEnd 2) OpGe 60)); reflexivity.
+Qed.
+
 (* the model of validateRFC3339 (time.Parse, then the translated checks) is the strict recogniser *)
 Theorem rfc3339_ok_is_strict s : rfc3339_ok s = rfc3339_gen true s.
 Proof.
@@ -468,10 +523,47 @@ Theorem malformed_created_no_manifest (marshal : manifest -> str) (H : str -> st
         (H_empty : H empty_json = empty_json_digest) f tc fa s at_ o now s' r v :
   ann_get (created_key f) (o_ann o) = Some v -> ~ RFC3339 v ->
   pack marshal H f tc fa s at_ o now = (s', r) ->
-  (exists e, r = Err e /\ (must_reject f at_ o = false -> fa = None -> e = EInvalidDateTime)) /\
+  (exists e, r = Err e /\ (must_reject f at_ o = false -> fa = None -> t_key tc <> KFile -> e = EInvalidDateTime)) /\
   (exists evs, steps s s' evs /\ Forall (blob_ev H) evs) /\
   only_empty_blob_added H (s_store s) (s_store s').
 Proof.
   intros G N P. eapply bad_created_no_manifest; eauto. now apply malformed_refused.
 Qed.
 
+
+(* ---------- the calendar shared by recogniser and grammar, read independently ---------- *)
+Definition month_table : list N := [31; 28; 31; 30; 31; 30; 31; 31; 30; 31; 30; 31].
+
+Lemma days_in_table m y :
+  1 <= m <= 12 ->
+  days_in m y = nth (N.to_nat m - 1) month_table 0 + (if (m =? 2) && is_leap y then 1 else 0).
+Proof.
+  intro R.
+  assert (Hm : m = 1 \/ m = 2 \/ m = 3 \/ m = 4 \/ m = 5 \/ m = 6 \/ m = 7 \/ m = 8 \/ m = 9 \/ m = 10 \/
+               m = 11 \/ m = 12) by lia.
+  repeat (destruct Hm as [-> | Hm]); try subst m; unfold days_in; simpl; destruct (is_leap y); reflexivity.
+Qed.
+
+Lemma year_length y :
+  days_in 1 y + days_in 2 y + days_in 3 y + days_in 4 y + days_in 5 y + days_in 6 y + days_in 7 y +
+  days_in 8 y + days_in 9 y + days_in 10 y + days_in 11 y + days_in 12 y = if is_leap y then 366 else 365.
+Proof. unfold days_in. simpl. destruct (is_leap y); reflexivity. Qed.
+
+Lemma is_leap_gregorian y :
+  is_leap y = true <-> (y mod 4 = 0 /\ (y mod 100 <> 0 \/ y mod 400 = 0)).
+Proof.
+  unfold is_leap. rewrite andb_true_iff, orb_true_iff, negb_true_iff, !N.eqb_eq, N.eqb_neq. reflexivity.
+Qed.
+
+Lemma leap_years : is_leap 2000 = true /\ is_leap 1900 = false /\ is_leap 2024 = true /\
+                   is_leap 2023 = false /\ is_leap 2100 = false /\ is_leap 0 = true.
+Proof. vm_compute. repeat split; reflexivity. Qed.
+
+Lemma rfc3339_examples :
+  RFC3339 (b "2024-02-29T23:59:59.5+07:30") /\ ~ RFC3339 (b "2006-01-02T1:04:05Z") /\
+  RFC3339_go (b "2006-01-02T15:04:05Z").
+Proof.
+  split; [apply accepted_is_rfc3339; vm_compute; reflexivity|].
+  split; [intro R; apply RFC3339_shape in R; vm_compute in R; discriminate|].
+  apply rfc3339_ok_spec. vm_compute. reflexivity.
+Qed.
